@@ -147,6 +147,18 @@ def set_literal_in_fstring_field(tree):
     return False
 
 
+def invert_brace_first_in_fstring_field(tree, source):
+    """`not <comparison>` is the whole expression of an f-string replacement field and the comparison's text starts with `{`
+    (a set/dict display or comprehension as its leftmost operand): without `not ` that `{` meets the field's `{`"""
+    for fv in _walk(tree, ast.FormattedValue):
+        v = fv.value
+        if isinstance(v, ast.UnaryOp) and isinstance(v.op, ast.Not) and isinstance(v.operand, ast.Compare):
+            seg = ast.get_source_segment(source, v.operand) or ""
+            if seg.startswith("{"):
+                return True
+    return False
+
+
 def _gen_calls(tree):
     for n in _walk(tree, ast.Call):
         if isinstance(n.func, ast.Name) and n.func.id in ("any", "all", "sum", "min", "max") and n.args:
@@ -372,6 +384,7 @@ def abstractproperty_shadowed_abc(tree):
 # a further check on the rewritten text, where the mechanism leaves a recognisable trace there
 REWRITE_CHECK = {
     "kf_set_literal_fstring_braces": lambda src, rw: rw is not None and "{{" in rw and "{{" not in src,
+    "kf_invert_fstring_braces": lambda src, rw: rw is not None and "{{" in rw and "{{" not in src,
 }
 
 RAISES = lambda obs, exc: obs[0].endswith("RAISED %s\n" % exc)
@@ -384,6 +397,7 @@ CLASSES = [
     # kf_invert_is_false_operand (lost parentheses) was repaired by 745793f; what still differs on those programs is the
     # `not x is False` -> `x` rewrite on a non-bool operand, i.e. kf_invert_is_literal, which is therefore tested first.
     # A return of the parentheses defect flips the translator's invert shape (iv_parens) and is reported through the table.
+    ("kf_invert_fstring_braces", ("invert-boolean-check",), lambda t, s, b, a: invert_brace_first_in_fstring_field(t, s)),
     ("kf_invert_is_literal", ("invert-boolean-check",), lambda t, s, b, a: invert_is_literal(t)),
     ("kf_invert_is_false_operand", ("invert-boolean-check",), lambda t, s, b, a: invert_is_false_operand(t)),
     ("kf_invert_partial_order", ("invert-boolean-check",), lambda t, s, b, a: invert_partial_order(t) or invert_user_ordering(t)),
@@ -447,6 +461,7 @@ EXPECTED_FAILURE = {
     "kf_generator_shortcircuit": _either(_v2v, lambda b, a: outcome(b)[0] == "raise" and outcome(a)[0] == "value"),
     "kf_set_literal_starred_arg": _either(_v2v, _to_raise("TypeError"), lambda b, a: outcome(b) == ("raise", "TypeError")),
     "kf_set_literal_fstring_braces": _either(_v2v, _to_raise("SyntaxError")),
+    "kf_invert_fstring_braces": _either(_v2v, _to_raise("SyntaxError")),
     "kf_hasattr_arity": lambda b, a: outcome(a)[0] == "value",
     "kf_walrus_nested_scope_read": _to_raise("NameError", "UnboundLocalError"),
     "kf_walrus_inline_precedence": _either(_v2v, _to_raise("SyntaxError")),
